@@ -7,6 +7,12 @@ CLAIMED = {
  'C14': dict(cat='proof', technique='Coq proof (canon = lexical normal form, exactness, idempotence...) + exhaustive correspondence with CanonicalizePath',
              text='Unbounded Coq theorems about the model of CanonicalizePath; model tied to the code by exhaustive comparison over {a,b,.,/}^<=9 (quick) plus random long paths under ASan; independent python normaliser as property oracle.',
              ref='8 C14'),
+ 'C15': dict(cat='proof', technique='Coq proof (parse(render names) = names for every layout; rejects; scanner bounds) + exhaustive raw-string correspondence with DepfileParser',
+             text='Unbounded Coq theorems (C15_roundtrip, C15_rules, C15_rejects_*, C13_depfile_bounds) about a transliteration of the re2c scanner; tied to the compiled parser by exhaustive comparison on all byte strings of length <=5 over the structural alphabet plus random long inputs under ASan; an independent python encoder of the GCC dialect is the names-in = names-out oracle.',
+             ref='8 C15'),
+ 'C16': dict(cat='proof', technique='Coq proof (sh_words(shell_escape n) = [n], lists, verbatim, no unquoted metacharacter) + correspondence with Edge::EvaluateCommand and with the real /bin/sh',
+             text='Unbounded Coq theorems about the escaper model and a model of sh word splitting; the escaper model is tied to the real EvaluateCommand path exhaustively on short names, the sh model to the real /bin/sh (argv observed by a helper); rspfile lifetime/content is exercised through the real ninja binary (partial: not a theorem).',
+             ref='8 C16'),
 }
 PENDING = {}
 ids = [json.loads(l)['id'] for l in open(os.path.join(V, 'properties.jsonl'))]
